@@ -24,7 +24,8 @@ pub struct ServerCase {
     /// virtual idle time after each burst, in ms (0 = none)
     pub idle_ms: u64,
     /// 0: drop the server at the end with nothing outstanding; 1: drop it while a request is
-    /// held by the application, answer afterwards
+    /// held by the application, answer afterwards; 2: as 1, with a second pipelined request of
+    /// the same connection still queued at the time of the drop
     pub drop_mode: u8,
     pub tape: Vec<u8>,
 }
@@ -35,7 +36,7 @@ pub fn server_strategy(max_burst: usize, for_c20: bool) -> BoxedStrategy<ServerC
         1usize..=2,
         1usize..=2,
         if for_c20 { prop_oneof![1 => Just(0u64), 3 => Just(6000u64), 1 => Just(5200u64)].boxed() } else { prop_oneof![3 => Just(0u64), 1 => Just(6000u64)].boxed() },
-        0u8..2,
+        0u8..3,
         tape_strategy(300),
     )
         .prop_map(|(bursts, reqs_per_conn, handlers, idle_ms, drop_mode, tape)| ServerCase { bursts, reqs_per_conn, handlers, idle_ms, drop_mode, tape })
@@ -207,11 +208,23 @@ pub fn run_server_case(prop: &'static str, case: &ServerCase) -> Verdict {
                 return;
             }
         };
-        if c.drop_mode == 1 {
+        if c.drop_mode >= 1 {
             // a request handed to the application before the drop is still answered afterwards
             let cl = listener.connect().expect("connect before drop");
-            cl.send(b"GET /r9999 HTTP/1.1\r\nHost: h\r\n\r\n");
+            let wire: &[u8] = if c.drop_mode == 2 { b"GET /r9999 HTTP/1.1\r\nHost: h\r\n\r\nGET /r9998 HTTP/1.1\r\nHost: h\r\n\r\n" } else { b"GET /r9999 HTTP/1.1\r\nHost: h\r\n\r\n" };
+            cl.send(wire);
             let rq = server.recv();
+            if c.drop_mode == 2 {
+                // let the connection read (and queue) the second request before the drop
+                let mut spins = 0;
+                while cl.consumed() < wire.len() && spins < 200 {
+                    rt::thread::yield_now();
+                    spins += 1;
+                }
+                for _ in 0..3 {
+                    rt::thread::yield_now();
+                }
+            }
             ph.store(32, Ordering::SeqCst);
             drop(server);
             ph.store(33, Ordering::SeqCst);
@@ -226,7 +239,8 @@ pub fn run_server_case(prop: &'static str, case: &ServerCase) -> Verdict {
                     }
                     let got = cl.output();
                     let (n, _, bad) = count_finals(&got);
-                    if n != 1 || bad || !got.ends_with(b"late") {
+                    let first_is_late = parse_one(&got, false).map(|m| m.body == b"late").unwrap_or(false);
+                    if n < 1 || bad || !first_is_late {
                         viol("answer-after-drop-lost", format!("client has {} bytes: {:?}", got.len(), vcore::resp::head_preview(&got)));
                     }
                 }
@@ -272,7 +286,7 @@ pub fn run_server_case(prop: &'static str, case: &ServerCase) -> Verdict {
         return fail(format!("{}/server/{}", prop, k), d.clone());
     }
     let max_burst = case.bursts.iter().copied().max().unwrap_or(0);
-    let nontrivial = if prop == "C08" { max_burst >= 5 } else { max_burst > 4 || case.drop_mode == 1 };
+    let nontrivial = if prop == "C08" { max_burst >= 5 } else { max_burst > 4 || case.drop_mode >= 1 };
     let mut g = if nontrivial { Good { nontrivial: Some(res.stats.trace_hash), classes: vec![], extra_evals: 0 } } else { Good::trivial() };
     g = g
         .class(format!("max-burst={}", max_burst))
